@@ -167,7 +167,8 @@ PROPS = {
     'C01': dict(
         monitor=True,
         streams=[chain_stream(8000, 300000, _nt_c01), chain_stream(3000, 100000, _nt_c01, name='ifaceout'), chain_stream(4000, 150000, _nt_c01, name='ifacesub'),
-                 dict(name='history', n_quick=800, n_thorough=20000, nontrivial=_nt_pair, compare=_pair_compare, wf_check=False)],
+                 dict(name='history', n_quick=800, n_thorough=20000, nontrivial=_nt_pair, compare=_pair_compare, wf_check=False),
+                 dict(name='condense', n_quick=1500, n_thorough=50000, nontrivial=_nt_condense, compare=_condense_compare, wf_check=False)],
         rule=CHAIN_RULE + 'C01 non-trivial: the chain binds and some provider is called with at least one argument. stream history (as for C11, without the race '
              'detector): the Loose / interface-matching clause must also hold for providers from which other providers have been derived with further Loose annotations. '
              'stream ifaceout: chains with a Loose source, one or two decorators func(I) I and consumers of I, each static-eligible or not (interface-typed outputs)',
@@ -309,7 +310,7 @@ PROPS = {
     ),
     'C10': dict(
         monitor=True,
-        streams=[conc_stream('once', 80, 2000), chain_stream(3000, 100000, _nt_c06, name='static')],
+        streams=[conc_stream('once', 80, 2000), chain_stream(3000, 100000, _nt_c06, name='static'), chain_stream(2000, 60000, _nt_bound, name='femotif')],
         rule='stream once: 1-4 chains sharing a Singleton provider, each with its own Cacheable static injector, bound with init functions; 2-13 goroutines race '
              'init (with different arguments) and invoke on every chain under the race detector with yield perturbation; observed: the Singleton ran once, each '
              'static chain ran once, every init call of a chain returned the same values; plus the static stream (sequential sessions with repeated init calls)',
@@ -401,7 +402,7 @@ PROPS = {
     ),
     'C15': dict(
         monitor=True,
-        streams=[chain_stream(8000, 300000, _nt_c15), chain_stream(3000, 100000, lambda c, o: True, name='shadowmotif')],
+        streams=[chain_stream(8000, 300000, _nt_c15), chain_stream(3000, 100000, lambda c, o: True, name='shadowmotif'), dict(name='history', n_quick=800, n_thorough=20000, nontrivial=_nt_pair, compare=_pair_compare, wf_check=False)],
         rule=CHAIN_RULE + 'stream shadowmotif: stacks of two to four wrappers returning the same type, some marked AllowReturnShadowing for it, over a final function '
              'that may or may not return it (non-trivial: every case; about half bind, a third are refused for shadowing). C15 non-trivial: the chain binds and some provider receives a returned value; an independent Coq monitor checks on the implementation\'s plan '
              'that every returned type has an included receiver above and that no wrapper shadows unannounced',
@@ -436,7 +437,10 @@ PROPS = {
              'injectors/wrappers; monitor: providers not marked Reorder keep their listed relative order and all call arguments equal the reference semantics\'. '
              'stream reorderwrap: chains without static providers in which most wrappers and fallible injectors are Reorder\'d and Required, so that the sort '
              'places per-invocation providers around the invoke function (the region where plan_wf is validated, not proved: about 18% of the bound cases)',
-        level_text='Theorems reorder_perm (the reordered list is a permutation of the input, all lists), C17_non_reorder_keep_listed_order '
+        level_text='C17_refinement_when_only_injectors_are_reordered: when only plain injectors (or providers outside the per-invocation part) carry Reorder - the '
+                   'chains of the first sentence - every chain that binds refines the reference semantics of its plan, no hypothesis validated on the case '
+                   '(runs_after_invoke_mild, from reorder_keeps_listed_providers and assemble_layout). '
+                   'Theorems reorder_perm (the reordered list is a permutation of the input, all lists), C17_non_reorder_keep_listed_order '
                    '(reorder_keeps_listed_order: the providers not marked Reorder appear in the reordered list in exactly their listed order, for every list, '
                    'every constraint graph and any fuel; proved by an invariant of the topological sort - the next non-Reorder provider emitted, through a queue or '
                    'forced from the cannotReorder list, is the first one not emitted yet, because each has a strong edge to its predecessor), C17_no_reorder_identity, '
